@@ -38,12 +38,13 @@ class FileWriter(AbstractWriter):
         f = None
 
         try:
-            f = open(filename)
-            data = f.read()
+            # putData() stores UTF-8 octets
+            f = open(filename, 'rb')
+            data = decode(f.read())
             f.close()
             return data
 
-        except (OSError, IOError, UnicodeEncodeError):
+        except (OSError, IOError, UnicodeError):
             if f:
                 f.close()
             return ''
